@@ -6,7 +6,7 @@ import numpy as np
 from filter_functions import basis as ffb
 from filter_functions import util
 
-from ..common import driver
+from ..common import corr_script, driver
 
 THEOREMS = '''normPos_ok_iff normPos_rejected positions_rejected_iff_insert insertResult_valueError
 positions_rejected_iff_merge mixedRadix_decode_encode mixedRadix_encode_decode insertResult_spec
@@ -18,6 +18,15 @@ equivalentPauli_spec equivalentPauli_set remapPauli_spec remapPauli_perm insertS
 insertSubscripts_slotFactors insertSubscripts_consistent splitInsertIndex_formula
 splitInsertIndex_bookkeeping'''.split()
 PINS = ['pinTensorInsert', 'pinTensorMerge', 'pinTensorTranspose']
+LEAN_MODULES = ['FFVerif.Props.C16', 'FFVerif.Props.C16Kron', 'FFVerif.Props.C16KronIns']
+THEOREMS = THEOREMS + ['FFVerif.C16Kron.' + t for t in '''mergeSigma_eq_mergeResult tensorMergeNum_isChain'
+tensorMergeNum_eq_chain insertSpec_single tensorInsertNum_single_isChain' tensorInsertNum_eq_chain_partial'''.split()]
+# module C16Kron (model TensorNum: util.tensor / tensor_transpose / tensor_insert / tensor_merge on shape + buffer arrays):
+# the chain is the iterated Kronecker product, transposing the formed product = the product of the permuted factors
+THEOREMS = THEOREMS + [
+    'FFVerif.C16Kron.kronMat_apply', 'FFVerif.C16Kron.isChain_iff_kronMat',
+    'FFVerif.C16Kron.tensorChain_eq_kron', 'FFVerif.C16Kron.tensorChain_entry',
+    'FFVerif.C16Kron.tensorTransposeNum_eq_chain', 'FFVerif.C16Kron.tensorTransposeNum_eq_kron']
 GEN_SITES = ['einsum:util_tensor_call0', 'einsum:util_tensor_insert_call0',
              'einsum:util_tensor_merge_call0']
 COMPONENTS = ['tensor_insert', 'tensor_merge', 'tensor_transpose', 'pauli_index_maps']
@@ -160,6 +169,10 @@ def requests(tier, rng):
 
 
 def correspondence(ctx, salt='corr'):
+    if salt == 'corr':
+        # the NUMERICAL results of tensor / tensor_transpose / tensor_insert / tensor_merge vs the model TensorNum
+        # (heterogeneous non-square chains, every admissible and inadmissible position tuple; bit-identical)
+        corr_script(ctx, 'corr_c16kron', [])
     rng = ctx.rng(salt)
     reqs = requests(ctx.tier, rng)
     lines = [predicted(*r) for r in reqs]
